@@ -1,6 +1,7 @@
 package props
 
 import (
+	"sort"
 	"fmt"
 	"go/ast"
 	"go/constant"
@@ -194,4 +195,67 @@ func evalInt(u *an.Unit, e ast.Expr, depth int) (int64, bool) {
 		}
 	}
 	return 0, false
+}
+
+// boolValueAt: the formula a boolean local stands for at site `use`, when the local is defined once (by an expression or
+// a constant) in a block that dominates the use and then possibly overridden by assignments that sit directly under an
+// `if c { x = v }` whose test lies between the definition and the use: value = fold over the overrides in order of
+// (c ∧ v) ∨ (¬c ∧ value). Whatever the arrangement — `x := e; if c { x = true }`, `x := c || e`, a switch — two
+// spellings of the same decision give equivalent formulas. ok is false when the shape is anything else.
+func boolValueAt(u *an.Unit, e ast.Expr, use *an.Site) (*flow.F, bool) {
+	id, isId := ast.Unparen(e).(*ast.Ident)
+	if !isId {
+		return u.C.Formula(flow.FromExpr(e)), true
+	}
+	obj := u.Info().ObjectOf(id)
+	var defs []*an.Site
+	for _, s := range u.Sites {
+		if s.Kind == flow.SStore && s.Local == obj && !s.Index {
+			defs = append(defs, s)
+		}
+	}
+	if len(defs) == 0 {
+		return u.C.Formula(flow.FromExpr(e)), true // a parameter, or a local that prints as its definition
+	}
+	// the base definition: dominates the use, is not itself conditional relative to it
+	var base *an.Site
+	var over []*an.Site
+	for _, d := range defs {
+		if d.RHS == nil {
+			return nil, false
+		}
+		dominates := d.Block == use.Block && d.SameBlockBefore(use) || d.Block != use.Block && u.G.Dominates(d.Block, use.Block)
+		if dominates {
+			if base != nil {
+				return nil, false
+			}
+			base = d
+		} else {
+			over = append(over, d)
+		}
+	}
+	if base == nil {
+		return nil, false
+	}
+	val := u.C.Formula(flow.FromExpr(base.RHS))
+	sort.Slice(over, func(i, j int) bool { return over[i].Pos < over[j].Pos })
+	for _, o := range over {
+		// directly under an edge whose source lies on the straight line between the base definition and the use
+		if len(o.Block.Preds) != 1 {
+			return nil, false
+		}
+		edge := o.Block.Preds[0].From
+		if edge.EdgeCond == nil || len(edge.Preds) != 1 {
+			return nil, false
+		}
+		src := edge.Preds[0].From
+		okSrc := (src == base.Block || u.G.Dominates(base.Block, src)) && (src == use.Block || u.G.Dominates(src, use.Block))
+		if !okSrc {
+			return nil, false
+		}
+		c := u.C.Formula(edge.EdgeCond)
+		v := u.C.Formula(flow.FromExpr(o.RHS))
+		val = flow.Or(flow.And(c, v), flow.And(flow.Not(c), val))
+	}
+	return flow.Simplify(val), true
 }
